@@ -98,6 +98,35 @@ def lib():
     return L
 
 
+_FRESH = []
+
+
+def fresh_lib():
+    """a NEW import of the whole library (own module objects, own module-level state) from the same source files, so that an
+    execution can make the first use of the library 'in the process' again and again; earlier fresh copies are dropped"""
+    lib()
+    while _FRESH:
+        old = _FRESH.pop()
+        for k in [k for k in sys.modules if k == old or k.startswith(old + ".")]:
+            del sys.modules[k]
+    name = "spake2_fresh_%d" % (fresh_lib.n,)
+    fresh_lib.n += 1
+    spec = importlib.util.spec_from_file_location(name, os.path.join(PKG, "__init__.py"), submodule_search_locations=[PKG])
+    m = importlib.util.module_from_spec(spec)
+    sys.modules[name] = m
+    spec.loader.exec_module(m)
+    _FRESH.append(name)
+    L = _Lib()
+    L.pkg = m
+    L.sp = importlib.import_module(name + ".spake2")
+    L.A, L.B, L.S = L.sp.SPAKE2_A, L.sp.SPAKE2_B, L.sp.SPAKE2_Symmetric
+    L.cls = {"A": L.A, "B": L.B, "S": L.S}
+    return L
+
+
+fresh_lib.n = 0
+
+
 # ---------------------------------------------------------------------------
 # observation
 
